@@ -113,8 +113,101 @@ def expected2(selset):
     return out
 
 
+# ---- shape 3: selector projection.  For every operator O of the static generator and every assignment of its child
+# positions from { S : one<'a'>, T : one<'b'> }:   L : O< ... >,   G : sor< seq< L, eof >, star< sor< S, T > > >
+# on every input over {a,b} of length <= 3 and under every selection of { L, S, T } (8 selectors; G stays unselected): the tree
+# obtained with a selection must be the projection (unselected nodes removed, their children lifted) of the tree obtained with
+# all three rules selected.  With everything selected no named rule is leaf-optimised, so a wrong subs_t / is_leaf decision for the
+# operator behind L (nodes of a failed or backtracked L leaking into the parent) shows as a difference.
+sys.path.insert(0, os.path.join(V.ROOT, 'gen'))
+import static_gen as SG
+
+HEADER3 = SG.HEADER + '''#include <tao/pegtl/contrib/parse_tree.hpp>
+#include <string>
+using namespace tao::pegtl;
+template< typename R > struct idx { static constexpr int v = -1; };
+template< int Mask > struct selm { template< typename R > struct type : std::bool_constant< ( idx< R >::v >= 0 ) && ( ( ( Mask >> ( idx< R >::v < 0 ? 0 : idx< R >::v ) ) & 1 ) != 0 ) > {}; };
+static long fuel3;
+struct Fuel3 {};
+template< typename Rule > struct fuelctl : normal< Rule > { template< typename In, typename... St > static void start( const In&, St&&... ) { if( --fuel3 < 0 ) throw Fuel3{}; } };
+static const char* g_b;
+static void dump( const parse_tree::node& n, int depth, std::string& out ) {
+   for( const auto& c : n.children ) {
+      std::string t( c->type );
+      const auto q = t.rfind( "::" );
+      if( q != std::string::npos ) t = t.substr( q + 2 );
+      out += std::string( size_t( depth ), '.' ) + t + "[" + std::to_string( c->m_begin.data - g_b ) + "," + std::to_string( c->has_content() ? c->m_end.data - g_b : -1 ) + ") ";
+      dump( *c, depth + 1, out );
+   }
+}
+template< typename G, int Mask > void run1( int k, const std::string& s ) {
+   g_b = s.data();
+   memory_input<> in( s.data(), s.data() + s.size(), "src" );
+   std::string out;
+   fuel3 = 2000;
+   try { auto root = parse_tree::parse< G, selm< Mask >::template type, nothing, fuelctl >( in ); if( root ) dump( *root, 0, out ); else out = "<no tree>"; }
+   catch( const Fuel3& ) { out = "<fuel>"; }
+   catch( const parse_error& ) { out = "<parse_error>"; }
+   catch( ... ) { out = "<exception>"; }
+   std::printf( "%d\\t%s\\t%d\\t%s\\n", k, s.c_str(), Mask, out.c_str() );
+}
+template< typename G, int... Ms > void runm( int k, const std::string& s, std::integer_sequence< int, Ms... > ) { ( run1< G, Ms >( k, s ), ... ); }
+template< typename G > void run( int k ) {
+   for( const char* s : { "", "a", "b", "aa", "ab", "ba", "bb", "aaa", "aab", "aba", "abb", "baa", "bab", "bba", "bbb" } ) runm< G >( k, s, std::make_integer_sequence< int, 8 >() );
+}
+'''
+SKIP3 = {'CUSTOM_ANY', 'STATE'}  # state<> replaces every state, including the tree's own: it does not compile under parse_tree
+
+
+def cases3():
+    out = []
+    for op in sorted(SG.OPEXPR):
+        e = SG.OPEXPR[op]
+        ar = sum(1 for x in ('{a}', '{b}', '{c}') if x in e)
+        if ar == 0 or op in SKIP3:
+            continue
+        for kids in itertools.product('ST', repeat=ar):
+            out.append((op, kids))
+    return out
+
+
+def source3(batch):
+    parts = [HEADER3]
+    for k, (op, kids) in batch:
+        kk = list(kids) + ['S'] * (3 - len(kids))
+        e = SG.OPEXPR[op].format(a=kk[0], b=kk[1], c=kk[2])
+        parts.append("namespace p%d { struct S : one< 'a' > {}; struct T : one< 'b' > {}; struct L : %s {}; struct G : sor< seq< L, eof >, star< sor< S, T > > > {}; }" % (k, e))
+        for i, n in enumerate('LST'):
+            parts.append('template<> struct idx< p%d::%s > { static constexpr int v = %d; };' % (k, n, i))
+    parts.append('int main() {')
+    for k, _ in batch:
+        parts.append('  run< p%d::G >( %d );' % (k, k))
+    parts.append('  return 0; }')
+    return '\n'.join(parts)
+
+
+def project(dump, mask):
+    """remove the nodes of unselected rules from a flattened tree, lifting their children"""
+    if dump.startswith('<'):
+        return dump
+    out = []
+    removed = []  # depths of removed ancestors on the current path
+    path = []     # (depth, removed?) stack
+    for tok in dump.split():
+        d = len(tok) - len(tok.lstrip('.'))
+        name = tok[d:tok.index('[')]
+        while path and path[-1][0] >= d:
+            path.pop()
+        keep = (mask >> 'LST'.index(name)) & 1
+        nd = d - sum(1 for (_, rm) in path if rm)
+        path.append((d, not keep))
+        if keep:
+            out.append('.' * nd + tok[d:])
+    return ''.join(t + ' ' for t in out)
+
+
 def _run(batch, shape=1):
-    text = source(batch) if shape == 1 else source2(batch)
+    text = source(batch) if shape == 1 else source2(batch) if shape == 2 else source3(batch)
     h = hashlib.sha256()
     h.update(V.tree_hash().encode())
     h.update(text.encode())
@@ -164,7 +257,32 @@ def run(pid, tier, agg, deadline):
             agg.viol_by_sig[sig] = agg.viol_by_sig.get(sig, 0) + 1
             if sum(1 for v in agg.vlines if v[1] == sig) < 3:
                 agg.vlines.append(('static', sig, {'selected': list(selset), 'expected': want, 'observed': got}))
-    agg.evaluations += len(cs) + len(cs2)
+    cs3 = list(enumerate(cases3()))
+    B3 = 6
+    batches3 = [cs3[i:i + B3] for i in range(0, len(cs3), B3)]
+    n3 = 0
+    with cf.ThreadPoolExecutor(V.NCPU) as ex:
+        for out in ex.map(lambda b: _run(b, 3), batches3):
+            got = {}
+            for line in out.splitlines():
+                k, inp, mask, d = line.split('\t')
+                got[(int(k), inp, int(mask))] = d
+            for (k, inp, mask), d in sorted(got.items()):
+                n3 += 1
+                full = got[(k, inp, 7)]
+                want = project(full, mask)
+                if d != want:
+                    bad += 1
+                    op, kids = cs3[k][1]
+                    sig = 'C12|tree under a selection is not the projection of the tree with every rule selected|' + op
+                    agg.viol_by_sig[sig] = agg.viol_by_sig.get(sig, 0) + 1
+                    if sum(1 for v in agg.vlines if v[1] == sig) < 3:
+                        e = SG.OPEXPR[op].format(a=(list(kids) + ['S'] * 3)[0], b=(list(kids) + ['S'] * 3)[1], c=(list(kids) + ['S'] * 3)[2])
+                        agg.vlines.append(('static', sig, {'L': e, 'grammar': "S : one<'a'>, T : one<'b'>, G : sor< seq< L, eof >, star< sor< S, T > > >", 'input': inp,
+                                                           'selected': [n for i, n in enumerate('LST') if (mask >> i) & 1], 'expected': want, 'observed': d, 'all_selected': full}))
+    agg.counters['static.selector_projection_grammars'] = len(cs3)
+    agg.counters['static.selector_projection_runs'] = n3
+    agg.evaluations += len(cs) + len(cs2) + n3
     agg.counters['static.caught_exception_selections'] = len(cs2)
     agg.counters['static.leaf_optimisation_chains'] = len(cs)
     agg.counters['static.leaf_optimisation_mismatches'] = bad
